@@ -940,7 +940,7 @@ Proof.
   - intros. apply ffz_ok; auto.
   - intros. apply ffs_ok; auto.
   - intros. apply get_ok.
-  - intros t gs a bits I Al Hlen. simpl. unfold rb_set.
+  - intros t gs a bits I. simpl. unfold rb_set.
     destruct (rb_remove_extent t (a - gs) (N.of_nat (length bits))) as [s r] eqn:E.
     destruct (remove_ok _ _ _ _ _ I E) as (A & B & _). simpl.
     destruct (set_runs_ok (a - gs) bits s 0 None A Logic.I) as (J1 & J2).
